@@ -343,6 +343,8 @@ def run(ctx):
         ctx.case(('n', o['arch'], json.dumps({k: (L['mout'], L.get('tm')) for k, L in o['layers'].items()}), job['fold']), nontrivial=pruned,
                  kind='net:%s:%s:%s' % (job['kind'], 'fold' if job['fold'] else 'nofold', 'int' if job['integer'] else 'real'),
                  sample={'arch': o['arch'], 'fold_bn': job['fold'], 'layers': {k: {'mout': L['mout'], 'tm': L.get('tm'), 'exported': L.get('exported')} for k, L in list(o['layers'].items())[:3]}} if job['seed'] % 23 == 0 else None)
+        for sw in (o.get('switches') or ['(none)']):
+            ctx.dist['switch:' + sw] += 1
         for t in o.get('topo', []):
             ctx.dist['topology:' + t] += 1
         for prod in (o.get('spec') or {}).get('productions', []):
@@ -352,7 +354,7 @@ def run(ctx):
             if kind in seen:
                 continue
             seen.add(kind)
-            fails.append((key_of(kind, job), {'case': {'job': job, 'arch': o['arch']}, 'detail': [f for f in o['fails']][:6], 'trace': o.get('trace')},
+            fails.append((key_of(kind, job), {'case': {'job': job, 'arch': o['arch']}, 'switches': o.get('switches'), 'detail': [f for f in o['fails']][:6], 'trace': o.get('trace')},
                           '%s on the implementation (fold_bn=%s, %s): %s' % (kind, job['fold'], o['arch'], info)))
     for c in lays:
         j = c['job']
